@@ -9,6 +9,7 @@ PROP = dict(
          'to a newer value, final value == N. Threads share only the object under test. Built with TSan (g++ -O1: any data race is a report) and '
          'with ASan. non-trivial = the consumer obtained >= 2 non-empty batches while producers ran / observed >= 2 distinct values; distinct by case hash',
     floor=dict(quick=800, thorough=8000),
+    confirm_replays=25,
     assumptions=TRUST + ['interleavings are sampled (payload-injected yields + generated pauses), not enumerated',
                          'TSan happens-before analysis decides race freedom of the executed accesses independent of timing'],
     bins=[rc('C12_transactional_tsan', 'harness/C12_transactional.cpp', None, cxx='g++', san='-fsanitize=thread -fno-omit-frame-pointer',
